@@ -295,3 +295,75 @@ fn ffi_fixed_life_cycle() {
         }
     }
 }
+
+// ---- "leaks nothing", also for memory that stays reachable (a process-wide table that only grows is invisible to a
+// reachability-based leak check): live heap bytes of this thread, counted by the allocator of this test binary, do not grow from
+// one complete life cycle to the next when the words differ.  Native run only (Miri has its own allocator and leak check).
+#[cfg(not(miri))]
+mod counting {
+    use std::alloc::{GlobalAlloc, Layout, System};
+    use std::cell::Cell;
+    thread_local! { pub static LIVE: Cell<isize> = const { Cell::new(0) }; }
+    pub struct Counting;
+    fn add(n: isize) { let _ = LIVE.try_with(|c| c.set(c.get() + n)); }
+    unsafe impl GlobalAlloc for Counting {
+        unsafe fn alloc(&self, l: Layout) -> *mut u8 { let p = System.alloc(l); if !p.is_null() { add(l.size() as isize); } p }
+        unsafe fn alloc_zeroed(&self, l: Layout) -> *mut u8 { let p = System.alloc_zeroed(l); if !p.is_null() { add(l.size() as isize); } p }
+        unsafe fn dealloc(&self, p: *mut u8, l: Layout) { System.dealloc(p, l); add(-(l.size() as isize)); }
+        unsafe fn realloc(&self, p: *mut u8, l: Layout, new: usize) -> *mut u8 { let q = System.realloc(p, l, new); if !q.is_null() { add(new as isize - l.size() as isize); } q }
+    }
+    pub fn live() -> isize { LIVE.with(|c| c.get()) }
+}
+#[cfg(not(miri))]
+#[global_allocator]
+static ALLOC: counting::Counting = counting::Counting;
+
+#[cfg(not(miri))]
+unsafe fn words_cycle(phonetic: bool, words: &[&[u16]]) {
+    let cfg = riti_config_new();
+    let l = if phonetic { CString::new("avro_phonetic").unwrap() } else { CString::new(std::env::var("VERIF_SYNTH_LAYOUT").unwrap()).unwrap() };
+    assert!(riti_config_set_layout_file(cfg, l.as_ptr()));
+    if let Ok(d) = std::env::var("VERIF_DATA_DIR") { let d = CString::new(d).unwrap(); assert!(riti_config_set_database_dir(cfg, d.as_ptr())); }
+    riti_config_set_phonetic_suggestion(cfg, true);
+    riti_config_set_fixed_suggestion(cfg, true);
+    let ctx = riti_context_new_with_config(cfg);
+    for w in words {
+        for k in w.iter() {
+            let s = riti_get_suggestion_for_key(ctx, *k, 0, 0);
+            let strings = read_out(s);
+            recheck_and_free(strings);
+            riti_suggestion_free(s);
+        }
+        riti_context_finish_input_session(ctx);
+    }
+    riti_context_free(ctx);
+    riti_config_free(cfg);
+}
+
+#[cfg(not(miri))]
+#[test]
+fn ffi_no_growth_across_life_cycles() {
+    unsafe {
+        std::env::set_var("XDG_DATA_HOME", "/nonexistent/riti-verif-miri");
+        // letter key codes: 0xA096 + (letter - 'a')
+        let k = |s: &str| -> Vec<u16> { s.chars().map(|c| 0xA096 + (c as u16 - 'a' as u16)).collect() };
+        let sets: [Vec<Vec<u16>>; 4] = [
+            vec![k("tp"), k("ami")], // warm-up: one-time initialisations of the process
+            vec![k("tpi"), k("tui"), k("ipt"), k("kotha"), k("amar")],
+            vec![k("sti"), k("upt"), k("ats"), k("bisoy"), k("sesh")],
+            vec![k("ust"), k("ita"), k("pta"), k("hotat"), k("ebong"), k("tsa"), k("aut")],
+        ];
+        for phonetic in [false, true] {
+            let mut after = Vec::new();
+            for set in sets.iter() {
+                let refs: Vec<&[u16]> = set.iter().map(|w| w.as_slice()).collect();
+                words_cycle(phonetic, &refs);
+                after.push(counting::live());
+            }
+            // after the warm-up, a complete life cycle gives back what it took: nothing accumulates with the number of words composed
+            for i in 2..after.len() {
+                assert!(after[i] - after[1] <= 16 * 1024, "[C19] live heap bytes grow from one complete life cycle to the next ({} method): {:?}", if phonetic { "phonetic" } else { "fixed" }, after);
+            }
+        }
+    }
+}
